@@ -4,7 +4,9 @@
 (*                                                                         *)
 (* The log (NDJSON, path in the environment variable MACHINES) has one     *)
 (* line per machine emitted by a real front-end:                           *)
-(*   [id, bmrsize, doms, nprocs, want]                                      *)
+(*   [id, bmrsize, doms, nprocs, nbonds, nso, ncons, want]                   *)
+(* nbonds: bonded sinks; nso[p] / ncons[p]: shared objects processor p is  *)
+(* linked to / named by its domain's constraint string                     *)
 (* doms[d] = [rsize, R, N, M, L, O, mode, ws, ops, prog, data] read from   *)
 (* the emitted object: ops is the opcode list as [name, rank] (rank = the  *)
 (* position of the name in the sorted set of the list's names: the order   *)
@@ -72,12 +74,16 @@ FirstDom(m, i) == IF i > Len(m.doms) THEN ""
                   ELSE LET y == DomWhyNot(m.bmrsize, m.doms[i]) IN IF y # "" THEN y ELSE FirstDom(m, i + 1)
 
 \* what the source demands of the machine (0 / -1: no demand)
+\* every processor is linked to as many shared objects as its domain's constraint string names
+SoWhyNot(m) == IF \E p \in 1 .. Len(m.nso) : m.nso[p] # m.ncons[p] THEN "shared-object-links-differ-from-the-processor's-constraints" ELSE ""
 WantWhyNot(m) ==
   CASE m.want.nprocs >= 0 /\ m.want.nprocs # m.nprocs -> "processors-differ-from-source"
+    [] m.want.nbonds >= 0 /\ m.want.nbonds # m.nbonds -> "bonds-differ-from-source"
+    [] m.want.nso >= 0 /\ \E p \in 1 .. Len(m.nso) : m.nso[p] # m.want.nso -> "shared-object-links-differ-from-source"
     [] m.want.minrom > 0 /\ \E i \in 1 .. Len(m.doms) : Pow2(m.doms[i].O) < m.want.minrom -> "rom-smaller-than-source"
     [] OTHER -> ""
 
-WhyNot(m) == LET y == FirstDom(m, 1) IN IF y # "" THEN y ELSE WantWhyNot(m)
+WhyNot(m) == LET y == FirstDom(m, 1) IN IF y # "" THEN y ELSE IF SoWhyNot(m) # "" THEN SoWhyNot(m) ELSE WantWhyNot(m)
 
 Init == l = 1
 Judge ==
